@@ -16,6 +16,7 @@ EXPLANATION = (
     ' MAP-REPLACE / MAP-ATTACH / MAP-KEY are decided on a history run by the interpreted decode path (rules_decoder.map_history: claim from 7, message from 7, message from unclaimed 9, claim from 9, claim from 11 with the NAME of 7, the same claim from 7 again, a claim with another NAME from 7, message from 7; also with the claim PGN excluded); the readings of particular spellings only confirm, except the hand-over of the identity through _decode_fast_message, which stays a rule. MFR-GUARD also covers both lists configured at once.'
     ' Fifth round: the history now also runs through the fast-packet path (a one-frame message from a claimed and from an unclaimed source; a two-frame message with a claim of its source between the frames, whose completed message must carry the latest claim) and includes a claim whose NAME differs outside serial number and manufacturer; the stand-in claim carries the fields the database lays out in the NAME and the real IsoName constructor derives the identity from them. [MFR-GUARD history] on one interpreted decoder with garmin excluded / garmin as the only included manufacturer the filter must follow the latest claim of an address. Structural readings of the map only confirm; where no interpreted history covers a construct they are reported as undecided, never as a violation.'
     ' Seventh round: when IsoName.__init__ does not read the claim fields in the recognised spelling (a table of field ids, a loop) the constructor is interpreted on stand-in claims whose fields all carry different values and every identity attribute is compared with the field of the same name.'
+    " Eighth round: [DEFAULTS-RO] (C16's clause) is run here: the source map is per decoder -- a mutable default or the caller's dictionary kept uncopied is one map for several decoders."
 )
 ASSUMPTIONS = ["CPython ast parser", "sym.py guard extraction, teval.py evaluation", "canboat.json is the oracle for field ids and kinds"]
 
